@@ -132,6 +132,25 @@ func genC03RtspPull(r *sim.Rng, tier string) RelayPlan {
 	sp := live[r.Intn(len(live))]
 	rel := sp.a + 1 + r.Intn(sp.b-sp.a)
 	st := r.Intn(rel)
+	if r.Bool(0.3) {
+		// the other order: the origin answers while the stream has no input yet, the pull attaches, and the publishers
+		// that come afterwards are the ones to refuse
+		first := len(pl.Ops)
+		for _, x := range live {
+			if x.a-1 < first {
+				first = x.a - 1
+			}
+		}
+		var ops []RelayOp
+		for i, op := range pl.Ops {
+			if i == first {
+				ops = append(ops, RelayOp{Kind: "rtsp_pull_start", Pub: 0, N: r.Intn(3)}, RelayOp{Kind: "settle"}, RelayOp{Kind: "rtsp_pull_release"}, RelayOp{Kind: "settle"})
+			}
+			ops = append(ops, op)
+		}
+		pl.Ops = ops
+		return pl
+	}
 	var ops []RelayOp
 	for i, op := range pl.Ops {
 		if i == st {
@@ -173,7 +192,27 @@ func checkC03RtspPull(k *sim.Kernel, rr *RelayRun) {
 	}
 	if attached {
 		// the origin answered while the stream had no input: the pull is the accepted input (with no media) and the
-		// publishers after it are the refused ones; the relay oracles below assume publishers are the inputs
+		// publishers after it are the refused ones (the relay oracles below assume publishers are the inputs). A pull that
+		// is still attached at the end of the run was the input all the time since its start notification.
+		evs := rr.W.Notify.Snapshot()
+		for i, e := range evs {
+			if e.Kind != "pull_start" {
+				continue
+			}
+			ended := false
+			for _, f := range evs[i+1:] {
+				ended = ended || (f.Kind == "pull_stop" && f.SessionId == e.SessionId)
+			}
+			if ended {
+				continue
+			}
+			for _, f := range evs[i+1:] {
+				if f.Kind == "pub_start" && f.Stream == e.Stream {
+					k.Violate("C03.two-inputs", "publisher %s (%s) was accepted on stream %s while the relay pull %s (%s) was the stream's accepted input (attached before, still attached at the end of the run)", f.SessionId, f.Protocol, f.Stream, e.SessionId, e.Protocol)
+				}
+			}
+			k.Probe("nontrivial")
+		}
 		k.Probe("c03_rtsppull_attached")
 		return
 	}
